@@ -115,7 +115,10 @@ MStep(mm, e, idx) ==
     [] e.e = "Quiescent" ->
         LET b1 == IF DOMAIN m.prod \subseteq m.okset THEN m.bad ELSE Flag(m.bad, "C03", "C03_AllDelivered", idx)
             b2 == IF \E w \in DOMAIN m.waits : m.waits[w].pend THEN Flag(b1, "C07", "C07_Returns", idx) ELSE b1
-        IN [m EXCEPT !.bad = b2]
+            \* C08: the arguments of a burst of immediate submissions are delivered (in one call, timeout after the last)
+            b3 == IF \E i \in DOMAIN m.sub : m.sub[i].imm /\ ~(ElemsOf(m, {i}) \subseteq m.okset)
+                  THEN Flag(b2, "C08", "C08_Together_never_delivered", idx) ELSE b2
+        IN [m EXCEPT !.bad = b3]
     [] e.e = "Shutdown" -> [m EXCEPT !.shut = "begun", !.dirty = TRUE, !.flush = TRUE,
                                      !.qj = IF m.qj.on /\ e.t = m.qj.t THEN [@ EXCEPT !.on = FALSE] ELSE @,
                                      !.pj = IF m.pj.on /\ e.t = m.pj.t THEN NoJ ELSE @]
